@@ -44,6 +44,8 @@ structure Policy (σ : Type) where
   finish     : σ → HRes σ
   /-- state after a child's poll unwound through the combinator -/
   onPanic    : σ → σ
+  /-- what the unwinding releases on its way out of `poll` -/
+  panicEvs   : σ → List Ev
   /-- drop glue: `PinnedDrop` followed by the fields -/
   dropEvs    : σ → List Ev
   afterDrop  : σ → σ
@@ -73,7 +75,8 @@ def visit (P : Policy σ) (e : Eng σ) (i : Nat) : Eng σ × Option Outcome :=
   if P.loopAny && !e.w.anyReady then (e, some .pending)
   else if !(gateGo P e i) then ({ e with w := gateW P e i }, none)
   else if e.w.resOf (P.child e.s i) = .panic then
-    ({ w := (gateW P e i).pollChild (P.child e.s i) i, s := P.onPanic e.s }, some .panicked)
+    ({ w := ((gateW P e i).pollChild (P.child e.s i) i).emits (P.panicEvs e.s), s := P.onPanic e.s },
+      some .panicked)
   else
     (applyH { e with w := (gateW P e i).pollChild (P.child e.s i) i }
         (P.handle e.s i (e.w.resOf (P.child e.s i))),
